@@ -71,12 +71,28 @@ def regen(fam=None):
     return rc == 0, out
 
 
+def base_targets(fam):
+    """.vo targets of the main family that the family's sources name in `From PV Require ...` lines"""
+    mods = set()
+    for d, _, fs in os.walk(fam.coq):
+        for f in fs:
+            if f.endswith(".v"):
+                txt = open(os.path.join(d, f), encoding="utf-8").read()
+                for m in re.finditer(r"From\s+PV\s+Require\s+(?:Import\s+|Export\s+)?(.*?)\.(?:\s|$)", txt, flags=re.S):
+                    mods.update(x for x in m.group(1).split() if re.fullmatch(r"[A-Za-z_]\w*(?:\.[A-Za-z_]\w*)*", x))
+                for m in re.finditer(r"(?<!PV )Require\s+(?:Import\s+|Export\s+)?(.*?)\.(?:\s|$)", txt, flags=re.S):
+                    mods.update(x[3:] for x in m.group(1).split() if x.startswith("PV."))
+    t = sorted(m.replace(".", "/") + ".vo" for m in mods if os.path.exists(os.path.join(COQ, m.replace(".", "/") + ".v")))
+    return t or ["Base/Bytes.vo"]
+
+
 def coq_make(targets, timeout=1500, fam=None):
     """full .vo build of the given targets (and what they depend on)"""
     fam = fam or MAIN
     if fam.name != "main":
-        # the base library first (families import it through -Q)
-        ok, out = coq_make([], timeout=timeout)
+        # the modules of the base library this family imports first (families see it through -Q); only those, so
+        # that an unrelated file of the main family that does not build cannot break this family's checks
+        ok, out = coq_make(base_targets(fam), timeout=timeout)
         if not ok:
             return ok, out
     with Lock("coq_" + fam.name):
